@@ -269,7 +269,7 @@ void run_C15(Ctx &cx) {
       std::vector<Res> one;
       std::string how;
       std::vector<Op> single{seq[i]};
-      if (run_in_child(single, 0, 1, one, 20000, how)) {
+      if (run_in_child(single, 0, 1, one, 8000, how)) {
         kept.push_back(seq[i]);
         fresh.push_back(one[0]);
       } else {
@@ -280,7 +280,11 @@ void run_C15(Ctx &cx) {
     if (kept.size() < 2) continue;
     std::vector<Res> got;
     std::string how;
-    bool ok = run_in_child(kept, 0, kept.size(), got, 60000, how);
+    bool ok = run_in_child(kept, 0, kept.size(), got, 8000 + 2000 * (int)kept.size(), how);
+    if (!ok && how == "timeout") { // wall-clock is never a verdict by itself: once more with a much larger budget
+      cx.rep.count("sequence_timeouts_retried");
+      ok = run_in_child(kept, 0, kept.size(), got, 60000 + 8000 * (int)kept.size(), how);
+    }
     cx.rep.count("operations", (long long)kept.size());
     for (size_t i = 0; i < kept.size(); i++) {
       if (i >= got.size()) {
